@@ -461,21 +461,13 @@ Fixpoint all_syms (l : list term) : option (list name) :=
   | _ => None
   end.
 
+(* the declaration must be an array literal (data) in first position of a program — a plain
+   Python list of at least two expressions; KGCond / expression arrays are single expressions *)
 Definition local_decl (f : term) : option (list name * term) :=
   match f with
   | TSeq (TArr (d :: ds) :: b :: bs) =>
       match all_syms (d :: ds) with
       | Some ss => Some (ss, TSeq (b :: bs))
-      | None => None
-      end
-  | TSeq (TCond (TSym a) (TSym b') (TSym c) :: b :: bs) =>
-      (* KGCond is a list subclass: a conditional of three symbols in first position is
-         taken for a local declaration as well *)
-      Some ([a; b'; c], TSeq (b :: bs))
-  | TArr (TArr (d :: ds) :: b :: bs) =>
-      (* a rank-2 array literal of symbols as function body *)
-      match all_syms (d :: ds) with
-      | Some ss => Some (ss, TArr (b :: bs))
       | None => None
       end
   | _ => None
@@ -546,13 +538,13 @@ Section Step.
               match o with
               | None => (Err k, st1)
               | Some vs =>
-                  let c0 := combine [nX; nY; nZ] vs in
-                  let (c1, f1) :=
+                  (* .f is bound to the function including its declaration, before the declaration is stripped *)
+                  let c0 := frame_set nDotF f (combine [nX; nY; nZ] vs) in
+                  let (c2, f1) :=
                     match local_decl f with
                     | Some (ss, body) => (add_locals ss c0, body)
                     | None => (c0, f)
                     end in
-                  let c2 := frame_set nDotF f1 c1 in
                   let (r, st2) := callv (push c2 st1) f1 in
                   match r with
                   | Ok _ => (r, pop st2)
